@@ -64,10 +64,54 @@ func c10Frames(r *rand.Rand, fi *imagetypes.FrameInfo) map[string][]byte {
 		return packSamples(s, 16)
 	}
 	return map[string][]byte{
-		"A": mk(func(i int) int { return r.Intn(maxv) }),                  // noise
-		"B": mk(func(i int) int { return (i / c) % 7 * (maxv / 8) }),      // coarse ramp
+		"A": mk(func(i int) int { return r.Intn(maxv) }),                           // noise
+		"B": mk(func(i int) int { return (i / c) % 7 * (maxv / 8) }),               // coarse ramp
 		"C": mk(func(i int) int { return ((i/c)%2 + (i/c/w)%2) % 2 * (maxv - 1) }), // checkerboard
 	}
+}
+
+// c10Params: "nil" -> nil, "def" -> GetDefaultParameters(), "alt" -> a non-default object for the syntax
+// (so that streams and calls differ from the default ones: a codec that remembers anything from a
+// previous call shows it on the next default call).
+func c10Params(ts, id string) paramSpec {
+	switch id {
+	case "nil":
+		return paramSpec{Kind: "nil"}
+	case "def":
+		return paramSpec{Kind: "default"}
+	}
+	f := map[string]any{}
+	switch ts {
+	case "50", "51":
+		f["quality"] = 55
+	case "57":
+		f["predictor"] = 1
+	case "70":
+		f["predictor"] = 1
+	case "81":
+		f["near"] = 9
+	case "90", "92":
+		f["rate"] = 0
+		f["numLevels"] = 2
+		f["progressionOrder"] = 2
+	case "91", "93":
+		f["numLevels"] = 2
+		f["rate"] = 5
+	case "201", "202", "203":
+		f["blockWidth"] = 16
+		f["blockHeight"] = 32
+		f["numLevels"] = 2
+	}
+	return paramSpec{Kind: "typed", Fields: f}
+}
+
+// decode operations read the streams encoded under the same parameter id; the decode call itself gets
+// nil parameters except for "def" (the shared default object kind)
+func c10DecParams(id string) paramSpec {
+	if id == "def" {
+		return paramSpec{Kind: "default"}
+	}
+	return paramSpec{Kind: "nil"}
 }
 
 func expectedDecodedLen(ts string, fi *imagetypes.FrameInfo) int {
@@ -97,7 +141,7 @@ func runC10(args []string) error {
 		v      infoVariant
 		fi     *imagetypes.FrameInfo
 		frames map[string][]byte
-		stream map[string][]byte // solo nil-parameter encodings, input of decode operations
+		stream map[string][]byte // solo encodings keyed frame|params, input of decode operations
 	}
 	var targets []*target
 	scn := 0
@@ -115,8 +159,8 @@ func runC10(args []string) error {
 			scn++
 			t.Reset(scn, "prop", "C10", "kind", "solo")
 			for _, f := range []string{"A", "B", "C"} {
-				for _, p := range []string{"nil", "def"} {
-					ps := paramSpec{Kind: map[string]string{"nil": "nil", "def": "default"}[p]}
+				for _, p := range []string{"nil", "def", "alt"} {
+					ps := c10Params(ts, p)
 					src := append([]byte{}, tg.frames[f]...)
 					enc := NewPD(fi)
 					var e error
@@ -132,17 +176,15 @@ func runC10(args []string) error {
 						es = fmt.Sprintf("frame count %d", len(enc.frames))
 					}
 					t.Event("solo", "ts", ts, "v", v.String(), "op", "enc", "f", f, "p", p, "sha", sha(st), "len", len(st), "srcsha", sha(tg.frames[f]), "err", es)
-					if p == "nil" {
-						tg.stream[f] = st
-					}
+					tg.stream[f+"|"+p] = st
 				}
 			}
 			for _, f := range []string{"A", "B", "C"} {
-				for _, p := range []string{"nil", "def"} {
-					ps := paramSpec{Kind: map[string]string{"nil": "nil", "def": "default"}[p]}
+				for _, p := range []string{"nil", "def", "alt"} {
+					ps := c10DecParams(p)
 					dec := NewPD(fi)
 					var e error
-					pan, site, class := protect(func() { e = c.Decode(NewPD(fi, tg.stream[f]), dec, ps.build(ts, c)) })
+					pan, site, class := protect(func() { e = c.Decode(NewPD(fi, append([]byte{}, tg.stream[f+"|"+p]...)), dec, ps.build(ts, c)) })
 					es := errStr(e)
 					if pan {
 						es = "panic: " + site + ": " + class
@@ -190,13 +232,16 @@ func runC10(args []string) error {
 			scn++
 			t.Reset(scn, "prop", "C10", "kind", "hist", "ts", tg.ts, "v", tg.v.String())
 			for _, op := range h.Ops {
-				ps := paramSpec{Kind: map[string]string{"nil": "nil", "def": "default"}[op.Params]}
+				ps := c10Params(tg.ts, op.Params)
+				if op.Op == "dec" {
+					ps = c10DecParams(op.Params)
+				}
 				var ins [][]byte
 				for _, f := range op.Frames {
 					if op.Op == "enc" {
 						ins = append(ins, append([]byte{}, tg.frames[f]...))
 					} else {
-						ins = append(ins, append([]byte{}, tg.stream[f]...))
+						ins = append(ins, append([]byte{}, tg.stream[f+"|"+op.Params]...))
 					}
 				}
 				before := shas(ins)
